@@ -57,6 +57,14 @@ pub open spec fn absent_err(e: ::std::io::Error) -> bool {
     err_kind(e) == ::std::io::ErrorKind::NotFound || err_errno(e) == Some(estale())
 }
 
+/// The error carried by a failed result (no `Debug` bound, unlike `unwrap_err`).
+pub open spec fn err_of<T>(r: ::std::io::Result<T>) -> ::std::io::Error {
+    match r {
+        Err(e) => e,
+        Ok(_) => arbitrary(),
+    }
+}
+
 pub open spec fn exists_err(e: ::std::io::Error) -> bool {
     err_kind(e) == ::std::io::ErrorKind::AlreadyExists
 }
@@ -373,7 +381,7 @@ pub mod filetime {
             final(w).now == old(w).now,
             final(w).opens == old(w).opens,
             final(w).published == old(w).published,
-            old(w).solo ==> match r {
+            match r {
                 Ok(()) => {
                     &&& old(w).files.contains_key(pv(p))
                     &&& *final(w) == (World {
@@ -411,7 +419,7 @@ pub mod filetime {
             final(w).now == old(w).now,
             final(w).opens == old(w).opens,
             final(w).published == old(w).published,
-            old(w).solo ==> match r {
+            match r {
                 Ok(()) => {
                     &&& old(w).files.contains_key(pv(p))
                     &&& *final(w) == (World {
@@ -447,7 +455,7 @@ pub mod filetime {
             final(w).now == old(w).now,
             final(w).opens == old(w).opens,
             final(w).published == old(w).published,
-            old(w).solo ==> match r {
+            match r {
                 Ok(()) => {
                     *final(w) == (World {
                         inodes: old(w).inodes.insert(
@@ -594,7 +602,7 @@ pub mod std {
                     final(w).now == old(w).now,
                     final(w).opens == old(w).opens + 1,
                     final(w).published == old(w).published,
-                    old(w).solo ==> match r {
+                    match r {
                         Ok(f) => {
                             &&& old(w).files.contains_key(pv(p))
                             &&& f.ino() == old(w).files[pv(p)]
@@ -631,7 +639,7 @@ pub mod std {
                     final(w).opens == old(w).opens,
                     final(w).published == old(w).published,
                     final(w).same_fs(*old(w)),
-                    old(w).solo ==> match r {
+                    match r {
                         Ok(m) => {
                             &&& final(w).hard_faults == old(w).hard_faults
                             &&& m.view().mtime == old(w).inodes[self.ino()].mtime
@@ -658,7 +666,7 @@ pub mod std {
                 final(w).now == old(w).now,
                 final(w).opens == old(w).opens,
                 final(w).published == old(w).published,
-                old(w).solo ==> match r {
+                match r {
                     Ok(()) => {
                         &&& old(w).files.contains_key(pv(p))
                         &&& final(w).files == old(w).files.remove(pv(p))
@@ -688,7 +696,7 @@ pub mod std {
                 final(w).opens == old(w).opens,
                 final(w).published == old(w).published,
                 final(w).same_fs(*old(w)),
-                old(w).solo ==> match r {
+                match r {
                     Ok(m) => {
                         &&& final(w).hard_faults == old(w).hard_faults
                         &&& (old(w).files.contains_key(pv(p)) || old(w).dirs.contains(pv(p)))
@@ -720,7 +728,7 @@ pub mod std {
                 final(w).opens == old(w).opens,
                 final(w).published == old(w).published,
                 final(w).same_fs(*old(w)),
-                old(w).solo ==> match r {
+                match r {
                     Ok(m) => {
                         &&& final(w).hard_faults == old(w).hard_faults
                         &&& (old(w).files.contains_key(pv(p)) || old(w).dirs.contains(pv(p)))
@@ -747,7 +755,7 @@ pub mod std {
                 final(w).now == old(w).now,
                 final(w).opens == old(w).opens,
                 final(w).published == old(w).published,
-                old(w).solo ==> match r {
+                match r {
                     Ok(()) => {
                         &&& old(w).files.contains_key(pv(p))
                         &&& final(w).hard_faults == old(w).hard_faults
@@ -784,7 +792,7 @@ pub mod std {
                 final(w).now == old(w).now,
                 final(w).opens == old(w).opens,
                 final(w).published == old(w).published + if r.is_ok() { 1nat } else { 0nat },
-                old(w).solo ==> match r {
+                match r {
                     Ok(()) => {
                         &&& old(w).files.contains_key(pv(from))
                         &&& old(w).dirs.contains(parent(pv(to)))
@@ -817,7 +825,7 @@ pub mod std {
                 final(w).now == old(w).now,
                 final(w).opens == old(w).opens,
                 final(w).published == old(w).published + if r.is_ok() { 1nat } else { 0nat },
-                old(w).solo ==> match r {
+                match r {
                     Ok(()) => {
                         &&& old(w).files.contains_key(pv(from))
                         &&& !old(w).files.contains_key(pv(to))
@@ -854,7 +862,7 @@ pub mod std {
                 final(w).published == old(w).published,
                 final(w).files == old(w).files,
                 final(w).inodes == old(w).inodes,
-                old(w).solo ==> match r {
+                match r {
                     Ok(()) => {
                         &&& final(w).hard_faults == old(w).hard_faults
                         &&& final(w).dirs.contains(pv(p))
@@ -865,6 +873,133 @@ pub mod std {
                         &&& final(w).hard_faults == old(w).hard_faults + 1
                         &&& forall|d: PathV| #[trigger] old(w).dirs.contains(d) ==> final(w).dirs.contains(d)
                         &&& forall|d: PathV| #[trigger] final(w).dirs.contains(d) ==> old(w).dirs.contains(d) || d.is_prefix_of(pv(p))
+                    },
+                },
+        {
+            unimplemented!()
+        }
+
+        /// One directory entry as returned by readdir.
+        #[verifier::external_body]
+        pub struct DirEntry {
+            x: u8,
+        }
+
+        impl DirEntry {
+            pub uninterp spec fn name(&self) -> Seq<u8>;
+
+            pub uninterp spec fn dir(&self) -> PathV;
+
+            /// lstat(dir/name) at the time of the call.
+            #[verifier::external_body]
+            pub fn metadata(&self, Tracked(w): Tracked<&mut World>) -> (r: std::io::Result<Metadata>)
+                requires
+                    old(w).inv(),
+                ensures
+                    final(w).stepped(*old(w)),
+                    final(w).inv(),
+                    final(w).now == old(w).now,
+                    final(w).opens == old(w).opens,
+                    final(w).published == old(w).published,
+                    final(w).same_fs(*old(w)),
+                    match r {
+                        Ok(m) => {
+                            &&& final(w).hard_faults == old(w).hard_faults
+                            &&& (old(w).files.contains_key(child(self.dir(), self.name())) || old(w).dirs.contains(child(self.dir(), self.name())))
+                            &&& m.view().is_dir == old(w).dirs.contains(child(self.dir(), self.name()))
+                            &&& old(w).files.contains_key(child(self.dir(), self.name())) ==> {
+                                &&& m.view().mtime == old(w).inode_at(child(self.dir(), self.name())).mtime
+                                &&& m.view().atime == old(w).inode_at(child(self.dir(), self.name())).atime
+                                &&& m.view().writable == old(w).inode_at(child(self.dir(), self.name())).writable
+                            }
+                        },
+                        Err(e) => {
+                            &&& (absent_err(e) ==> !old(w).files.contains_key(child(self.dir(), self.name())) && !old(w).dirs.contains(child(self.dir(), self.name())))
+                            &&& final(w).hard_faults == old(w).hard_faults + if absent_err(e) { 0nat } else { 1nat }
+                        },
+                    },
+            {
+                unimplemented!()
+            }
+
+            #[verifier::external_body]
+            pub fn file_name(&self) -> (r: ::std::ffi::OsString)
+                ensures
+                    os_bytes(r) == self.name(),
+                    single_component(self.name()),
+            {
+                unimplemented!()
+            }
+        }
+
+        /// An open directory stream.  `rem()` is what it will still yield.
+        #[verifier::external_body]
+        pub struct ReadDir {
+            x: u8,
+        }
+
+        impl ReadDir {
+            pub uninterp spec fn rem(&self) -> Seq<Option<Seq<u8>>>;
+
+            pub uninterp spec fn dir(&self) -> PathV;
+
+            /// readdir(3): one item per call (T3 calls this explicitly; it counts as a filesystem step).
+            #[verifier::external_body]
+            pub fn next(&mut self, Tracked(w): Tracked<&mut World>) -> (r: Option<std::io::Result<DirEntry>>)
+                requires
+                    old(w).inv(),
+                ensures
+                    final(w).stepped(*old(w)),
+                    final(w).inv(),
+                    final(w).now == old(w).now,
+                    final(w).opens == old(w).opens,
+                    final(w).published == old(w).published,
+                    final(w).same_fs(*old(w)),
+                    final(self).dir() == old(self).dir(),
+                    match r {
+                        None => old(self).rem().len() == 0 && final(self).rem().len() == 0 && final(w).hard_faults == old(w).hard_faults,
+                        Some(Ok(e)) => {
+                            &&& old(self).rem().len() > 0
+                            &&& old(self).rem()[0] == Some(e.name())
+                            &&& e.dir() == old(self).dir()
+                            &&& final(self).rem() == old(self).rem().drop_first()
+                            &&& final(w).hard_faults == old(w).hard_faults
+                        },
+                        Some(Err(_)) => {
+                            &&& old(self).rem().len() > 0
+                            &&& old(self).rem()[0].is_none()
+                            &&& final(self).rem() == old(self).rem().drop_first()
+                            &&& final(w).hard_faults == old(w).hard_faults + 1
+                        },
+                    },
+            {
+                unimplemented!()
+            }
+        }
+
+        /// opendir(path)
+        #[verifier::external_body]
+        pub fn read_dir(p: &Path, Tracked(w): Tracked<&mut World>) -> (r: std::io::Result<ReadDir>)
+            requires
+                old(w).inv(),
+            ensures
+                final(w).stepped(*old(w)),
+                final(w).inv(),
+                final(w).now == old(w).now,
+                final(w).opens == old(w).opens + 1,
+                final(w).published == old(w).published,
+                final(w).same_fs(*old(w)),
+                match r {
+                    Ok(rd) => {
+                        &&& old(w).dirs.contains(pv(p))
+                        &&& rd.dir() == pv(p)
+                        &&& listing_of(rd.rem(), *old(w), pv(p))
+                        &&& rd.rem().len() < u64::MAX   // assumption: a directory holds fewer than 2^64 entries
+                        &&& final(w).hard_faults == old(w).hard_faults
+                    },
+                    Err(e) => {
+                        &&& (absent_err(e) ==> !old(w).dirs.contains(pv(p)))
+                        &&& final(w).hard_faults == old(w).hard_faults + if absent_err(e) { 0nat } else { 1nat }
                     },
                 },
         {
